@@ -105,10 +105,11 @@ def plan(tier, seed, avoid):
 
 
 def floors(tier):
-    f = {"evaluations": 4000, "distinct_nontrivial": 2500, "observed.links.ok": 1200, "observed.links.rejected": 60,
-         "observed.isas": len(ARCHES), "observed.oracle.refdis": 1500, "observed.oracle.manual": 300,
-         "observed.oracle.direct": 300, "observed.near_edge": 800, "observed.pairs_recombined": 40}
-    return f
+    return {"evaluations": 15000, "distinct_nontrivial": 5000, "observed.links.ok": 2000,
+            "observed.links.rejected": 300, "observed.isas": len(ARCHES), "observed.types": 80,
+            "observed.oracle.refdis": 3000, "observed.oracle.manual": 2000, "observed.oracle.direct": 2000,
+            "observed.near_edge": 2000, "observed.pairs_recombined": 300, "observed.same_shape_checked": 3000,
+            "observed.links.through_partial_link": 200}
 
 
 # ---------------------------------------------------------------------------
@@ -851,6 +852,7 @@ def gen_case(r, isa, car, avoid, idx):
         bad_site = r.choice(cands) if cands else None
     symdefs = {}
     made_bad = []
+    sym_addend = {}
 
     def define_at(name, S, A_site_obj):
         """make symbol `name` have value S; returns the mode used or None"""
@@ -904,10 +906,12 @@ def gen_case(r, isa, car, avoid, idx):
                 A = r.choice([x["addend"], x["addend"], x["addend"], 0, -8, 3, 17])
             elif F_ADDEND not in avoid and r.random() < 0.3:
                 A = r.choice([4, -4, 1, 8, -16, 100])
-            x["addend"] = A
-            if name in symdefs or any(s["name"] == name for o in objs for s in o["symbols"]):
+            if name in sym_addend:
+                x["addend"] = sym_addend[name]     # both halves of a split reference carry the same addend
                 x["vclass"] = "shared"
-                continue          # second reference to an already defined symbol (pairs, two-label instructions)
+                continue          # second reference to an already defined symbol (pairs)
+            x["addend"] = A
+            sym_addend[name] = A
             F = I + x["foff"]
             want_bad = (pi == bad_site) and ty.kind != "part" and "bad" not in p
             emergent = (not want_bad) and r.random() < 0.3
@@ -925,7 +929,7 @@ def gen_case(r, isa, car, avoid, idx):
                 elif not allowed(isa, x["type"], ty, S, A, I, F, avoid):
                     drop = True
                 elif (isa, x["type"]) in (("arm", "ldr_imm12"), ("arm", "adr_imm12")) and \
-                        (S % 4 or not -4095 <= ty.value(S, A, I, F) <= 4095):
+                        ((S + A) % 4 or not -4095 <= ty.value(S, A, I, F) <= 4095):
                     drop = True
                 elif not ty.representable(S, A, I, F) and r.random() < 0.9:
                     drop = True
@@ -948,13 +952,13 @@ def gen_case(r, isa, car, avoid, idx):
                     S = ty.base(I, F) + v - A - ty.adj
                 else:
                     S = v - A
-                if S < 0:
-                    continue
+                if S < 0 or (ty.kind == "abs" and S + A < 0):
+                    continue      # negative "addresses" are outside the quantifier
                 if S >= space and not (want_bad and ty.kind == "abs"):
                     continue
                 if x["type"] in RELAXABLE and (-2048 - 64 <= S - I <= 2047 + 64 or (S + A) % 2):
                     continue      # narrowing (1): the shrink decision itself is C13's
-                if (isa, x["type"]) in (("arm", "ldr_imm12"), ("arm", "adr_imm12")) and S % 4:
+                if (isa, x["type"]) in (("arm", "ldr_imm12"), ("arm", "adr_imm12")) and (S + A) % 4:
                     continue      # narrowing (3)
                 if not allowed(isa, x["type"], ty, S, A, I, F, avoid):
                     continue
@@ -967,8 +971,9 @@ def gen_case(r, isa, car, avoid, idx):
                 # fall back: a nearby, certainly fine target
                 S = _al(I + 16 * ialign, 4)
                 vclass = "fallback"
-                if ty.kind != "part" and (not ty.representable(S, A, I, F)
-                                          or not allowed(isa, x["type"], ty, S, A, I, F, avoid)):
+                if key not in ADDEND_TYPES:
+                    A = x["addend"] = sym_addend[name] = 0
+                if not ty.representable(S, A, I, F) or not allowed(isa, x["type"], ty, S, A, I, F, avoid):
                     x["drop"] = True
             x["vclass"] = vclass
             if want_bad and vclass.startswith("bad"):
@@ -1011,7 +1016,7 @@ def allowed(isa, typ, ty, S, A, I, F, avoid):
     """avoid switches of the open findings: is this (type, value) outside every switched-off construct?"""
     key = (isa, typ)
     if ty.kind == "part":
-        if F_ODD in avoid and key in ODD_REJECTED and (S + A) % ODD_REJECTED[key]:
+        if F_ODD in avoid and key in ODD_REJECTED and (S % ODD_REJECTED[key] or (S + A) % ODD_REJECTED[key]):
             return False
         return True
     v = ty.value(S, A, I, F)
@@ -1036,7 +1041,7 @@ def allowed(isa, typ, ty, S, A, I, F, avoid):
         return False
     if F_XTRANGE in avoid and isa == "xtensa" and key in XT_WRONG and XT_WRONG[key](v):
         return False
-    if F_ODD in avoid and key in ODD_REJECTED and (S % ODD_REJECTED[key] or (key in ODD_SITE and I % 4)):
+    if F_ODD in avoid and key in ODD_REJECTED and (S % ODD_REJECTED[key] or (S + A) % ODD_REJECTED[key]):
         return False
     return True
 
@@ -1056,7 +1061,6 @@ EDGE_EXCLUDED = {
 ODD_REJECTED = {("riscv", "abs32_imm20"): 2, ("riscv", "abs32_imm12"): 2, ("riscv", "rel_imm20"): 2,
                 ("riscv", "rel_imm12"): 2, ("riscv:rvc", "abs32_imm20"): 2, ("riscv:rvc", "abs32_imm12"): 2,
                 ("riscv:rvc", "rel_imm20"): 2, ("riscv:rvc", "rel_imm12"): 2, ("msp430", "abs16"): 2}
-ODD_SITE = set()
 # xtensa: J rejects the four lowest offsets; L32R (always backwards) accepts forward offsets and rejects the far half
 XT_WRONG = {("xtensa", "call18"): lambda v: -131072 <= v <= -131069,
             ("xtensa", "ri16"): lambda v: v < -131072 or 0 <= v <= 4 * 65535}
@@ -1233,6 +1237,7 @@ def _tcount():
 
 class Mon:
     def __init__(self, spec):
+        self.spec = dict(spec)
         self.avoid = set(spec["avoid"])
         self.evals = 0
         self.viol = []
@@ -1249,7 +1254,8 @@ class Mon:
         if len(self.viol) < 6:
             c = {"arch": case["arch"], "index": case["index"], "case": case}
             c.update(extra)
-            self.viol.append({"summary": summary, "case": c})
+            self.viol.append({"summary": summary, "case": c,
+                              "replay_spec": dict(self.spec, only_index=case["index"])})
 
     def disc(self, why):
         self.discarded[why] = self.discarded.get(why, 0) + 1
@@ -1458,7 +1464,8 @@ def pick_line(d, foff):
 def mon_pair(isa, byt, mon, key):
     def viol(msg):
         if len(mon.viol) < 6:
-            mon.viol.append({"summary": msg, "case": {"arch": isa, "pair": {k: list(v) for k, v in byt.items()}}})
+            mon.viol.append({"summary": msg, "case": {"arch": isa, "pair": {k: list(v) for k, v in byt.items()}},
+                             "replay_spec": dict(mon.spec, only_index=key[0])})
 
     if "abs32_imm20" in byt and "abs32_imm12" in byt:
         hi, lo, D = byt["abs32_imm20"][0], byt["abs32_imm12"][0], byt["abs32_imm20"][3]
